@@ -215,6 +215,7 @@ func Main(args []string) int {
 		}
 	}
 	seed, _ := strconv.ParseInt(os.Getenv("VERIF_SEED"), 10, 64)
+	Tier = tier
 	chk := mk()
 	if racepass {
 		if chk.RacePass == nil {
@@ -245,6 +246,9 @@ func Main(args []string) int {
 	p.Deadline = p.start.Add(budget)
 	return p.run(famOnly)
 }
+
+// Tier is the tier of this run ("quick" or "thorough"), known before a check is constructed.
+var Tier = "quick"
 
 func findFam(chk *Check, name string) *Family {
 	for _, f := range chk.Families {
@@ -917,9 +921,19 @@ func (p *Parent) runRacePass() {
 		p.Total.ViolationCase("data race: "+sig, "free-running -race pass of the scenario bodies", detail)
 	}
 	iters := 0
+	seenV := map[string]bool{}
 	for _, l := range strings.Split(out, "\n") {
 		if strings.HasPrefix(l, "RACEPASS-ITERATIONS ") {
 			fmt.Sscanf(l, "RACEPASS-ITERATIONS %d", &iters)
+		}
+		// a functional observation of the free-running bodies themselves (e.g. a call entered with
+		// another evaluation's context)
+		if strings.HasPrefix(l, "RACEPASS-VIOLATION ") && !seenV[l] {
+			seenV[l] = true
+			n++
+			p.Total.fam = &Family{Name: "race-pass", Describe: func(int64) string { return "free-running -race pass" }}
+			p.Total.idx = -1
+			p.Total.ViolationCase(strings.TrimPrefix(l, "RACEPASS-VIOLATION "), "free-running -race pass of the scenario bodies", l)
 		}
 	}
 	if !completed && n == 0 {
